@@ -463,13 +463,27 @@ pub fn dyadic_bits(x: f64) -> Option<u32> {
 /// Certificate that evaluating the stored terms at `x` in f64 is exact in every association
 /// order: all partial products and sums are multiples of 2^-B below 2^53-B.
 pub fn eval_is_exact(terms: &[(Vec<u64>, f64)], x: &BTreeMap<u64, f64>) -> bool {
+    terms_exact(terms, x, false)
+}
+
+/// same certificate for partial evaluation: ids without a value stay symbolic
+pub fn partial_is_exact(terms: &[(Vec<u64>, f64)], x: &BTreeMap<u64, f64>) -> bool {
+    terms_exact(terms, x, true)
+}
+
+fn terms_exact(terms: &[(Vec<u64>, f64)], x: &BTreeMap<u64, f64>, allow_missing: bool) -> bool {
     let mut max_bits = 0u32;
     let mut mag = 0.0f64; // upper bound computed in f64 with slack
     for (ids, c) in terms {
         let Some(mut b) = dyadic_bits(*c) else { return false };
         let mut m = c.abs();
         for id in ids {
-            let Some(v) = x.get(id) else { return false };
+            let Some(v) = x.get(id) else {
+                if allow_missing {
+                    continue;
+                }
+                return false;
+            };
             let Some(bv) = dyadic_bits(*v) else { return false };
             b += bv;
             m *= v.abs().max(1.0);
@@ -478,4 +492,14 @@ pub fn eval_is_exact(terms: &[(Vec<u64>, f64)], x: &BTreeMap<u64, f64>) -> bool 
         mag += m;
     }
     max_bits <= 40 && mag * 2f64.powi(max_bits as i32) * 1.0001 < 2f64.powi(52)
+}
+
+/// polynomial of absolute values of the STORED terms (no cancellation between repeated terms):
+/// the right magnitude for rounding bounds
+pub fn abs_stored_poly(f: &v1::Function) -> Poly {
+    let mut p = Poly::zero();
+    for (ids, c) in stored_terms(f) {
+        p.add_term(ids, q(c).abs());
+    }
+    p
 }
